@@ -2,6 +2,7 @@ import FastraceModel.Driver.Codec
 import FastraceModel.Driver.Report
 import FastraceModel.Driver.Seq
 import FastraceModel.Driver.Spsc
+import FastraceModel.Driver.Macro
 open Fastrace.Driver
 
 /-- line-protocol driver: first line `mode <m>`, then one request per line -/
@@ -25,6 +26,7 @@ def main : IO Unit := do
   match words first with
   | ["mode", "codec"] => loop stdin stdout codecStep
   | ["mode", "report"] => loop stdin stdout reportStep
+  | ["mode", "macro"] => loop stdin stdout macroStep
   | ["mode", "spsc"] => loopSt stdin stdout spscStep ⟨none, false⟩
   | ["mode", "off"] => loop stdin stdout offStep
   | ["mode", "seq"] => loopSt stdin stdout seqStep ⟨Fastrace.Sys.init, 0⟩
